@@ -116,4 +116,25 @@ def pick (ready : Bool) (drops : List RW) (rs : List Nat) (counter : Option Nat)
       | none => (.cbDropped, count)
       | some c => if childOK then (.ok, c) else (.childErr, endRequest c)
 
+/-! ### clusterimpl: drop configuration across EDS updates (handleClusterConfigLocked) -/
+
+/-- `DropConfig` -/
+structure DropCfg where
+  category : String
+  rpm : Nat
+deriving DecidableEq, Repr
+
+/-- `b.dropCategories` and `b.drops` -/
+structure DropState where
+  cats : List DropCfg := []
+  drops : List RW := []
+
+/-- The drop part of `handleClusterConfigLocked` for an EDS update with overloads
+    (category, numerator, denominator): `newDrops` via `dropRequestsPerMillion`; if it differs from
+    `b.dropCategories` (`slices.Equal`: category AND rate, in order) every dropper is rebuilt with
+    `newDropper`, otherwise nothing changes. -/
+def handleDrops (s : DropState) (overloads : List (String × Nat × Nat)) : DropState :=
+  let newDrops := overloads.map fun (c, n, d) => (⟨c, dropRequestsPerMillion n d⟩ : DropCfg)
+  if s.cats ≠ newDrops then { cats := newDrops, drops := newDrops.map fun c => newDropper c.rpm } else s
+
 end GrpcModel.WRRRandom
